@@ -179,6 +179,31 @@ pub async fn send_direct(r: &ActorRef<SimActor>, how: How, msg: Msg, world: &Wor
         },
         (How::AskJoin, Ty::A) => rep(r.ask(MsgA(msg)).await, id),
         (How::AskJoin, Ty::B) => rep(r.ask(MsgB(msg)).await, id),
+        (How::TellC(t), Ty::A) => match tokio::time::timeout(world.dur(t), r.tell(MsgA(msg))).await {
+            Ok(x) => unit(x, id),
+            Err(_) => Res::Abandoned,
+        },
+        (How::TellC(t), Ty::B) => match tokio::time::timeout(world.dur(t), r.tell(MsgB(msg))).await {
+            Ok(x) => unit(x, id),
+            Err(_) => Res::Abandoned,
+        },
+        (How::TellC(t), Ty::Job) => match tokio::time::timeout(world.dur(t), r.tell(JobMsg(msg))).await {
+            Ok(x) => unit(x, id),
+            Err(_) => Res::Abandoned,
+        },
+        (How::AskC(t), Ty::A) => match tokio::time::timeout(world.dur(t), r.ask(MsgA(msg))).await {
+            Ok(x) => rep(x, id),
+            Err(_) => Res::Abandoned,
+        },
+        (How::AskC(t), Ty::B) => match tokio::time::timeout(world.dur(t), r.ask(MsgB(msg))).await {
+            Ok(x) => rep(x, id),
+            Err(_) => Res::Abandoned,
+        },
+        (How::AskC(t), Ty::Job) => match tokio::time::timeout(world.dur(t), r.ask(JobMsg(msg))).await {
+            Ok(Ok(_jh)) => Res::Ok,
+            Ok(Err(e)) => map_err(&e, id),
+            Err(_) => Res::Abandoned,
+        },
         (h, _) => send_blocking(r, h, msg, world),
     }
 }
